@@ -42,6 +42,17 @@ KINDS = {
     "line-comment-apostrophe": " // don't\n",
     "line-comment-block-opener": " // see /* below\n",
     "line-comment-backslash-eol": " // path c:\\\n",
+    # characters that str.splitlines() treats as line ends but the language does not: the comment runs to the LF
+    "line-comment-cr-inside": " // sign:\r- , \"zz\" weighted 3 {\n",
+    "line-comment-ff-inside": " // control\x0c, \"zz\" weighted 3 }\n",
+    "line-comment-vt-inside": " // a\x0b) and (\n",
+    "line-comment-fs-inside": " // a\x1c not \x1d in \x1e if\n",
+    "line-comment-nel-inside": " // a\x85 return \"zz\" weighted 1\n",
+    "line-comment-ls-inside": " // a\u2028 else { \u2029 }\n",
+    "line-comment-if-predicate": " // fallback, only reached if tier == 1\n",
+    "line-comment-in-list": " // values not in (1, 2)\n",
+    "block-cr-inside": " /* a\r*/ ",
+    "block-ls-inside": " /* a\u2028b\x85c\x0cd */ ",
 }
 COMMENT_KINDS = [k for k, v in KINDS.items() if "/" in v]
 WS_KINDS = [k for k in KINDS if k not in COMMENT_KINDS]
